@@ -157,6 +157,15 @@ def ensure_built(verbose=False):
         log("build ok in %.1fs" % (time.time() - t0))
 
 
+def _big_stack():
+    import resource
+    try:
+        soft, hard = resource.getrlimit(resource.RLIMIT_STACK)
+        resource.setrlimit(resource.RLIMIT_STACK, (hard, hard))
+    except (ValueError, OSError):
+        pass
+
+
 def run_model(lines, family="codec", shards=None):
     """Run the extracted model on protocol lines; returns the answer lines."""
     if not lines:
@@ -166,7 +175,10 @@ def run_model(lines, family="codec", shards=None):
     chunks = [lines[i::shards] for i in range(shards)]
     procs = []
     for ch in chunks:
-        p = subprocess.Popen([drv, family], stdin=subprocess.PIPE, stdout=subprocess.PIPE, text=True)
+        # the extracted functions recurse over byte lists (a 100 KB message is a list of 100,000
+        # elements): give the driver all the stack the system allows
+        p = subprocess.Popen([drv, family], stdin=subprocess.PIPE, stdout=subprocess.PIPE, text=True,
+                             preexec_fn=_big_stack)
         procs.append(p)
     # feed in threads to avoid pipe deadlocks
     import threading
@@ -229,7 +241,49 @@ def proof_gate(pid):
         res["error"] = "Print Assumptions output missing for some theorem"
     else:
         res["ok"] = True
+    # thorough tier: the compiled property file and everything it depends on is checked once more by
+    # the independent checker, which also lists the axioms of every library loaded
+    if res["ok"] and os.environ.get("VERIF_TIER_EFFECTIVE") == "thorough":
+        res["coqchk"] = run_coqchk(pid)
+        COQCHK[pid] = res["coqchk"]
+        if res["coqchk"].get("completed") and not res["coqchk"].get("clean"):
+            res["ok"] = False
+            res["error"] = "coqchk: " + res["coqchk"].get("summary", "")[:600]
     return res
+
+
+COQCHK = {}
+
+
+def run_coqchk(pid):
+    """coqchk -silent -o on props/<pid>.vo and its dependencies. A run that does not complete (time,
+    memory, a concurrent rebuild) is recorded as such and is not a verdict: coqc's kernel has accepted
+    the file already."""
+    t = time.time()
+    try:
+        p = sh("timeout 2400 coqchk -silent -o -Q . SF SF.props.%s" % pid, cwd=COQ, check=False, timeout=2500)
+    except Exception as e:  # noqa
+        return {"completed": False, "note": "coqchk did not run: %s" % e}
+    out = p.stdout or ""
+    info = {"completed": False, "seconds": round(time.time() - t, 1),
+            "cmd": "coqchk -silent -o -Q . SF SF.props.%s (in coq/)" % pid}
+    m = re.search(r"CONTEXT SUMMARY\n=+\n(.*)", out, re.S)
+    if p.returncode != 0 or not m:
+        info["note"] = "coqchk did not complete (exit %d): %s" % (p.returncode, out[-300:])
+        return info
+    summ = m.group(1)
+    info["completed"] = True
+    fields = {}
+    for key, label in (("axioms", "Axioms"), ("type_in_type", "Constants/Inductives relying on type-in-type"),
+                       ("unsafe_fixpoints", "Constants/Inductives relying on unsafe (co)fixpoints"),
+                       ("assumed_positivity", "Inductives whose positivity is assumed")):
+        mm = re.search(r"\* " + re.escape(label) + r":\s*(.*?)(?=\n\s*\n\* |\Z)", summ, re.S)
+        val = (mm.group(1).strip() if mm else "?")
+        fields[key] = [] if val == "<none>" else [x.strip() for x in val.split("\n") if x.strip()]
+    info.update(fields)
+    info["clean"] = all(fields[k] == [] for k in fields)
+    info["summary"] = " ".join(summ.split())
+    return info
 
 
 # axioms of the standard library that a theorem may depend on (named in DESIGN.md section 8)
@@ -254,6 +308,8 @@ def write_replay(pid, obj):
 
 def write_evidence(pid, tier, seed, coverage, wall, violations, assumptions):
     os.makedirs(os.path.join(VERIF, "evidence"), exist_ok=True)
+    if pid in COQCHK and isinstance(coverage, dict):
+        coverage = dict(coverage, coqchk=COQCHK[pid])
     ev = {
         "property_id": pid,
         "tier": tier,
